@@ -32,7 +32,8 @@ OVERRIDES = [None, [0, 1], [1, 2], [2, 3], [0, 2]]
 def scope_text(tier):
     if tier == 'quick':
         return ('all 1x1, 1x2, 2x1 settings over 14 types (ordered); 2x2 over unordered source pair x unordered '
-                'target pair of 14 types; all existence patterns; exclusions none + each single pair')
+                'target pair of 14 types; all existence patterns; exclusions none + each single pair; degree-override (grouping) '
+                'variants on 1x2/2x1/2x2 over a 4-type sub-alphabet x 4 override lists')
     return ('quick scope with ORDERED 2x2 over 14 types, plus 2x3/3x2 over a 6-type and 3x3 over a 4-type '
             'sub-alphabet, plus degree-override (grouping) variants on 1x2/2x1/2x2 over the 6-type sub-alphabet')
 
@@ -53,6 +54,14 @@ def cases(tier, seed):
     for s in pairs:
         for t in pairs:
             yield dict(src=list(s), tgt=list(t))
+    if tier == 'quick':
+        # grouping-style degree overrides per existence pattern (thorough: over the 6-type sub-alphabet, below)
+        for ns, nt in ((1, 2), (2, 1), (2, 2)):
+            for s in itertools.product(SUB4, repeat=ns):
+                for t in itertools.product(SUB4, repeat=nt):
+                    for ov in OVERRIDES[1:]:
+                        yield dict(src=list(s), tgt=list(t), src_override={0: ov})
+                        yield dict(src=list(s), tgt=list(t), tgt_override={nt-1: ov})
     if tier != 'quick':
         for s in itertools.product(SUB6, repeat=2):
             for t in itertools.combinations_with_replacement(SUB6, 3):
